@@ -1,7 +1,7 @@
 ID = "C20"
 LEVEL = "proof"
-COQ_TARGETS = ["Props/Properties_C20.vo", "Extract/ExtractText.vo"]
-PROPS_FILES = ["Props/Properties_C20.v"]
+COQ_TARGETS = ["Props/Properties_C20.vo", "Props/Properties_C20_total.vo", "Extract/ExtractText.vo"]
+PROPS_FILES = ["Props/Properties_C20.v", "Props/Properties_C20_total.v"]
 RUNS = [
     dict(name="quote", harness="c20", driver="text", model_ml="text_model", harness_args=["-part", "quote"]),
     dict(name="render", harness="c20", driver="text", model_ml="text_model", harness_args=["-part", "render"]),
